@@ -432,6 +432,7 @@ func checkC18(p *Prog, r *Report) {
 	ruleAppendBoundary(p, r)
 	ruleMergeOrder(p, r)
 	ruleEveryLineKept(p, r)
+	ruleStaleIndex(p, r, map[string]bool{"cisco": true, "nsx": true, "panos": true, "linux": true})
 	ruleLoadOrder(p, r)
 	r.Trusted = []string{"go/ssa, call graph"}
 	r.NotDec = "positions of prepend/append in merged lists beyond the boundary guard; relative order inside each part"
